@@ -33,6 +33,10 @@ extern "C" void __wrap__ZN6Search9timeLimitEiiil(Search* self, int a, int b, int
 }
 
 // ---------------------------------------------------------------- grid
+// computeTimeLimit is private: tolerate the side to move being passed in instead of read from the object (the call is only a seam)
+template <class EC> static auto callComputeTimeLimit(EC& ec, const SearchParams& sp, int) -> decltype(ec.computeTimeLimit(sp), void()) { ec.computeTimeLimit(sp); }
+template <class EC> static auto callComputeTimeLimit(EC& ec, const SearchParams& sp, long) -> decltype(ec.computeTimeLimit(sp, true), void()) { ec.computeTimeLimit(sp, ec.pos.isWhiteMove()); }
+
 static void grid() {
     std::ostringstream os; SearchListener sl(os); EngineMainThread emt; EngineControl ec(os, emt, sl);
     const std::vector<int> times = {1, 2, 9, 10, 11, 99, 100, 101, 999, 1000, 1001, 1999, 2000, 10000, 100000, 1000000, 10000000};
@@ -50,7 +54,7 @@ static void grid() {
                 if (!W->mine(id++)) continue;
                 for (int wi : incs) for (int bi : incs) for (int m : mtg) {
                     SearchParams sp(0); sp.wTime = wt; sp.bTime = bt; sp.wInc = wi; sp.bInc = bi; sp.movesToGo = m;
-                    ec.computeTimeLimit(sp);
+                    callComputeTimeLimit(ec, sp, 0);
                     int time = side == 0 ? wt : bt;
                     int budget = time - std::min(buf, time * 9 / 10);
                     R.count("states"); R.count("transitions");
@@ -64,7 +68,7 @@ static void grid() {
             }
             if (W->idx == 0) for (int mt : mts) {
                 SearchParams sp(0); sp.moveTime = mt; sp.wTime = 5; sp.bTime = 5;
-                ec.computeTimeLimit(sp);
+                callComputeTimeLimit(ec, sp, 0);
                 R.count("states"); R.count("transitions");
                 if (!(ec.minTimeLimit == mt && ec.maxTimeLimit == mt)) R.violation("movetime-limits", "movetime " + std::to_string(mt) + " -> " + std::to_string(ec.minTimeLimit) + "/" + std::to_string(ec.maxTimeLimit), "{}");
             }
@@ -75,6 +79,7 @@ static void grid() {
 
 // ---------------------------------------------------------------- delivery
 struct Line { long long us; std::string text; };
+static int TIMEOUT_S = 300;
 static ses::Transcript runTimed(const std::vector<std::string>& script, std::vector<Line>& lines) {
     ses::Transcript t;
     int pfd[2], efd[2];
@@ -88,7 +93,7 @@ static ses::Transcript runTimed(const std::vector<std::string>& script, std::vec
         ses::lineStamp = vs_now_us;
         vs_set_query_us(0);
         vs_begin(nullptr, 0, &SH->tr, 0, 50000000);   // scheduling points and clock queries are free: only searched nodes and sleeps take time
-        ses::runScriptInChild(script, pfd[1], 300);
+        ses::runScriptInChild(script, pfd[1], TIMEOUT_S);
         vs_end();
         _exit(0);
     }
@@ -127,6 +132,7 @@ static void deliver(const std::string& opts, const std::string& pos, const TC& t
     W->crumb(sstr);
     std::vector<Line> lines;
     ses::Transcript t = runTimed(script, lines);
+    if (t.timedOut) { R.count("reruns_after_wall_clock_limit"); TIMEOUT_S = 3000; lines.clear(); t = runTimed(script, lines); TIMEOUT_S = 300; }   // deterministic run: only a slow machine can make it hit the limit
     ses::Analysis a = ses::analyse(t, true);
     R.count("states"); R.count("transitions", (long long)lines.size());
     std::string rep = "{\"kind\":\"ops\",\"script\":\"" + jsonEsc(sstr) + "\",\"rate\":" + std::to_string(RATE_US) + ",\"threads\":" + std::to_string(NTHREADS) + "}";
@@ -180,6 +186,8 @@ static void delivery(bool thorough) {
         "position fen 8/8/8/8/8/5k2/4p3/4K3 w - - 0 1",                               // KPK
         "position startpos",
         "position fen r1bq1rk1/pp2bppp/2n1pn2/2pp4/3P1B2/2PBPN2/PP1N1PPP/R2QK2R w KQ - 2 8",
+        "position startpos moves e2e4",                                                  // black to move, reached through the move list
+        "position fen rnbqkbnr/pppppppp/8/8/4P3/8/PPPP1PPP/RNBQKBNR b KQkq - 0 1 moves e7e5 g1f3 b8c6",   // black base position, odd number of moves: white to move
     };
     std::vector<std::string> optsets = {"", "setoption name BufferTime value 1", "setoption name Ponder value true", "setoption name MaxNPS value 1000", "setoption name BufferTime value 10000", "setoption name MaxNPS value 20000"};
     if (!thorough) optsets.resize(4);
@@ -188,14 +196,22 @@ static void delivery(bool thorough) {
         int buf = optsets[oi].find("BufferTime value 10000") != std::string::npos ? 10000 : optsets[oi].find("BufferTime value 1") != std::string::npos ? 1 : 1000;
         for (auto& pos : positions) {
             bool wtm = pos.find(" b ") == std::string::npos;
+            { size_t mp = pos.find(" moves "); if (mp != std::string::npos) { int n = 0; std::istringstream ms(pos.substr(mp + 7)); std::string t; while (ms >> t) n++; if (n & 1) wtm = !wtm; } }
             std::vector<TC> tcs;
             for (int mt : {1, 10, 50, 300}) tcs.push_back(TC{"go movetime " + std::to_string(mt), mt});
             for (int t : {10, 100, 1200, 2300}) for (int mtg : {0, 1, 2, 35}) for (int inc : {0, 50}) {
                 std::string g = "go wtime " + std::to_string(t) + " btime " + std::to_string(t) + (inc ? " winc " + std::to_string(inc) + " binc " + std::to_string(inc) : "") + (mtg ? " movestogo " + std::to_string(mtg) : "");
-                (void)wtm;
-                tcs.push_back(TC{g, clockBudget(t, buf)});
+                                tcs.push_back(TC{g, clockBudget(t, buf)});
             }
             if (thorough) for (int t : {5000}) for (int mtg : {1, 3}) tcs.push_back(TC{"go wtime " + std::to_string(t) + " btime " + std::to_string(t) + " movestogo " + std::to_string(mtg), clockBudget(t, buf)});
+            // the two clocks differ: the budget is the MOVER's (a root reached through "moves" has the other side to move than the base position)
+            for (int big : {60000, 1200}) for (int small : {40, 300}) for (int moverHasSmall = 0; moverHasSmall < 2; moverHasSmall++) {
+                int mine = moverHasSmall ? small : big, other = moverHasSmall ? big : small;
+                int wt = wtm ? mine : other, bt = wtm ? other : mine;
+                if (mine > 2500) continue;   // keep the sessions short: a mover with a minute on the clock is covered by the allocation grid
+                tcs.push_back(TC{"go wtime " + std::to_string(wt) + " btime " + std::to_string(bt), clockBudget(mine, buf)});
+                tcs.push_back(TC{"go wtime " + std::to_string(wt) + " btime " + std::to_string(bt) + " winc 20 binc 20 movestogo 3", clockBudget(mine, buf)});
+            }
             for (auto& tc : tcs) deliver(optsets[oi], pos, tc, 0, "");
         }
     }
